@@ -5,6 +5,7 @@
 -/
 import Saltpack.Proofs.RoundTripSig
 import Saltpack.Proofs.SignReader
+import Saltpack.Proofs.WireRT
 import Saltpack.Toy
 
 namespace Saltpack.Props.C07
@@ -91,6 +92,16 @@ theorem C07_reader_fault_refused (P : Prims) (valid : Validator) (kr : Keyring)
     (rest : Stream.Source) :
     ∃ e, Sign.verifyDetachedReader P valid kr hr sr (frags.map (·, none) ++ (d, some (.err z)) :: rest) = .error e :=
   Proofs.verifyDetachedReader_fault P valid kr hr sr _ z (Proofs.copyAll_fault frags d z rest)
+
+/-- **Round trip on the emitted BYTES**: what `SignDetached` emits, split into
+    header and signature object, verifies against the message -/
+theorem C07_roundtrip_bytes (P : Prims) (hP : P.Lawful)
+    (v : Version) (signer nonce msg : Bytes) (hn : nonce.length + 92 < 2 ^ 32)
+    (kr : Keyring) (hk : kr.lookupSigningPublicKey (P.sigPub signer) = some (P.sigPub signer))
+    (out : Bytes) (hout : Sign.detachedWith P v signer nonce msg = .ok out) :
+    ∃ hr sr, Wire.splitDetached out = .ok (hr, sr) ∧
+      Sign.verifyDetached P knownMajor kr hr sr msg = .ok (P.sigPub signer) :=
+  Proofs.detached_roundtrip_bytes P hP v signer nonce msg hn kr hk out hout
 
 /-! ## non-vacuity -/
 example : Sign.copyAll [([1, 2], none), ([], none), ([3], some .eof), ([9], none)] = ([1, 2, 3], none) := by decide
